@@ -82,6 +82,19 @@ def run_case(ri):
         est = abs(float(np.ravel(i3.error_estimate)[0])) + abs(float(np.ravel(i1.error_estimate)[col]))
         if not abs(at(v1) - float(v3)) <= 10 * est + 1e-12 * abs(float(v3)):
             probs.append('scalar: element %s in the array gives %r, alone %r, beyond the error estimates' % (pos, at(v1), float(v3)))
+    # one object, same x, different extra arguments: each call must equal a fresh object's call
+    g = lambda z, s=1.0, t=0.0: fun(z) * s + t
+    try:
+        with np.errstate(all='ignore'):
+            dd = nd.Derivative(g, n=r['n'], method=r['m'], order=r['o'], full_output=True)
+            xx = np.array(vals).reshape(shape)
+            a1 = dd(xx, 2.0, t=1.0)
+            a2 = dd(xx, -0.5)
+            b2 = nd.Derivative(g, n=r['n'], method=r['m'], order=r['o'], full_output=True)(xx, -0.5)
+        if not (same(a2[0], b2[0]) and same(a2[1].error_estimate, b2[1].error_estimate) and same(a2[1].f_value, b2[1].f_value)):
+            probs.append('args: second call with other extra arguments on the same object gives %r, a fresh object %r' % (np.ravel(a2[0])[:3].tolist(), np.ravel(b2[0])[:3].tolist()))
+    except Exception as ex:
+        probs.append('raises: %s' % ex)
     idx = np.ravel(i1.index)
     if idx.size != size or int(idx[col]) % size != col:
         probs.append('index: info.index[%d] = %r is not in column %d of the estimate table' % (col, idx[col] if idx.size > col else None, col))
